@@ -355,9 +355,24 @@ fn special_docs(rng: &mut Rng, base: &[u8], toks: &[gen::Tok], thorough: bool) -
     let mut v: Vec<(String, Vec<u8>)> = Vec::new();
     v.push(("empty".into(), vec![]));
     v.push(("ws-only".into(), b" \n\t \r\n ".to_vec()));
+    // BOM-prefixed documents.  `bom`: the first token follows the byte order mark DIRECTLY, so the
+    // document has nodes on row 0 whose column must count the 3 BOM bytes (for every seed and every
+    // language); `bom-ws`: the sentence as rendered (may begin with blanks or a newline);
+    // `bom-multiline`: first token on row 0, the others on later rows; `bom-nl`: row 0 holds only the BOM.
+    let first_tok = base.iter().position(|b| !b" \t\r\n".contains(b)).unwrap_or(base.len());
+    let trimmed = &base[first_tok..];
     let mut bom = vec![0xef, 0xbb, 0xbf];
-    bom.extend_from_slice(base);
+    bom.extend_from_slice(trimmed);
     v.push(("bom".into(), bom));
+    let mut bom_ws = vec![0xef, 0xbb, 0xbf];
+    bom_ws.extend_from_slice(base);
+    v.push(("bom-ws".into(), bom_ws));
+    let mut bom_ml = vec![0xef, 0xbb, 0xbf];
+    bom_ml.extend(trimmed.iter().map(|b| if *b == b' ' { b'\n' } else { *b }));
+    v.push(("bom-multiline".into(), bom_ml));
+    let mut bom_nl = vec![0xef, 0xbb, 0xbf, b'\n'];
+    bom_nl.extend_from_slice(trimmed);
+    v.push(("bom-nl".into(), bom_nl));
     let mut bom_mid = base.to_vec();
     let at = rng.below(base.len() + 1);
     for (k, b) in [0xef, 0xbb, 0xbf].iter().enumerate() {
